@@ -29,9 +29,11 @@ func VerifC07aReassembly(n int) {
 	lg2 := dlog.VerifInstall(source.Client)
 	h := chandlers.NewClientHandler("srv")
 	start := 0
+	buf := make([]byte, n) // one transport buffer reused for every read, as io.Copy does
 	for i := 1; i <= n; i++ {
 		if i == n || verifrt.Bool("cut") {
-			h.Write(stream[start:i])
+			k := copy(buf, stream[start:i])
+			h.Write(buf[:k])
 			start = i
 		}
 	}
@@ -64,6 +66,7 @@ func VerifC07bTwoSources(n int) {
 	}
 	hs := [2]*chandlers.ClientHandler{chandlers.NewClientHandler("s0"), chandlers.NewClientHandler("s1")}
 	pos := [2]int{}
+	bufs := [2][]byte{make([]byte, 64), make([]byte, 64)}
 	for pos[0] < len(streams[0]) || pos[1] < len(streams[1]) {
 		s := 0
 		if pos[0] >= len(streams[0]) || (pos[1] < len(streams[1]) && verifrt.Bool("second-source-next")) {
@@ -79,7 +82,8 @@ func VerifC07bTwoSources(n int) {
 		if atStart && end-pos[s] > 4 && verifrt.Bool("cut-inside") {
 			end = pos[s] + 4
 		}
-		hs[s].Write(streams[s][pos[s]:end])
+		k := copy(bufs[s], streams[s][pos[s]:end]) // each connection reuses its transport buffer
+		hs[s].Write(bufs[s][:k])
 		pos[s] = end
 	}
 	next := [2]int{}
@@ -132,8 +136,12 @@ func VerifC07cLabel(n, P int) {
 		printed += c
 	}
 	if frame > P && printed != want {
-		// known (shared with C01): a record longer than the transport read is cut
-		verifrt.Finding("C01-KF3", true)
+		if verifrt.Known("C01-KF3") {
+			// known (shared with C01): a record longer than the transport read is cut
+			verifrt.Finding("C01-KF3", true)
+		} else {
+			verifrt.Assert(false, "a record longer than one transport read is not reassembled into the same line")
+		}
 		return
 	}
 	if frame > P {
